@@ -74,9 +74,21 @@ fn derive3(rng: &mut Rng, c: Curve3) -> (Curve3, &'static str) {
 
 fn check2(rng: &mut Rng) {
     let (pts, fc) = gen::curve2_points(rng);
-    let tol = *rng.pick(&[1e-6, 1e-8, 1e-4, 1e-10]);
+    let mut tol = *rng.pick(&[1e-6, 1e-8, 1e-4, 1e-10, 0.0]);
     // sprinkle duplicates within / just outside the tolerance
     let mut pts = pts;
+    // an end gap EXACTLY equal to the tolerance (dyadic numbers, so the distance is computed without rounding):
+    // the de-duplication and the closedness test must agree on which side "equal" falls
+    if rng.chance(0.08) && pts.len() >= 3 {
+        tol = *rng.pick(&[0.25, 0.125, 0.0009765625]);
+        let q = |x: f64| (x * 64.0).round() / 64.0;
+        for p in pts.iter_mut() {
+            *p = Point2::new(q(p.x), q(p.y));
+        }
+        let f = pts[0];
+        let last = pts.len() - 1;
+        pts[last] = if rng.chance(0.5) { Point2::new(f.x + tol, f.y) } else { Point2::new(f.x, f.y - tol) };
+    }
     if rng.chance(0.4) && pts.len() > 1 {
         let k = rng.below(pts.len());
         let d = if rng.chance(0.5) { tol * 0.5 } else { tol * 1.5 };
